@@ -90,14 +90,16 @@ macro_rules! impl_range_inclusive_match_arms {
           (Value::[<$ty:camel>](from), Value::[<$ty:camel>](to))  => {
             let from_val = *from.borrow();
             let to_val = *to.borrow();
-            let diff = to_val - from_val + $ty::one();
+            let diff = to_val - from_val;
             if diff < $ty::zero() {
               return Err(MechError::new(
                 EmptyRangeError{},
                 None
               ).with_compiler_loc());
             }
-            let size = range_size_to_usize!(diff, $ty);           
+            // count the end point after the conversion: `to - from + 1` overflows the kind for 0<u8>..=255<u8>
+            let size: usize = range_size_to_usize!(diff, $ty);
+            let size = size + 1;
             let mut vec = vec![from_val; size];
             match size {
               0 => Err(MechError::new(
